@@ -19,14 +19,20 @@ GenInit == /\ Init
                            /\ \A s \in EnvSources : spell[s] = Canonical
                            /\ fstate # "junk"
            /\ fstate = "junk" => \A s \in EnvSources : spell[s] = Canonical
+           /\ nbr # NoNbr => /\ given["cmd"] = None /\ given["fenv"] \in {None, "v1"} /\ given["env"] \in {None, "v2"}
+                             /\ given["file"] \in {None, "v1"} /\ \E s \in Sources : given[s] # None
 
 CaseJson(via) ==
     [cmd |-> given["cmd"], fenv |-> given["fenv"], env |-> given["env"], file |-> given["file"],
      fenvcase |-> spell["fenv"], envcase |-> spell["env"],
-     junk |-> junk, fstate |-> fstate,
+     junk |-> junk, fstate |-> fstate, nside |-> nbr.side, nsrc |-> nbr.src, nform |-> nbr.form,
      via |-> via, winner |-> Winner(given), value |-> Effective(given), result |-> result']
 
+MCNbrSays == [side : {"before", "after"}, src : {"fenv", "env", "file"}, form : {"ok", "ill"}]
+MCNoNbr == {}
+MCRunnable == MCVals \ MCBad
 GenNext == \/ ParseCmdline
+           \/ ScanNeighbour("before") \/ ScanNeighbour("after")
            \/ ReadFile /\ (pc' = "done" => PrintT(ToJson(CaseJson("readfile"))))
            \/ ApplyEnv
            \/ ApplyFile
@@ -55,7 +61,7 @@ MCNoGivens == {}
 LoadJson(g, v, r) == [cmd |-> g["cmd"], fenv |-> g["fenv"], env |-> g["env"], file |-> g["file"],
                       winner |-> Winner(g), value |-> Effective(g), result |-> r]
 HistJson == [i \in DOMAIN hist |-> LoadJson(hist[i].given, hist[i].value, hist[i].result)]
-HistGenNext == \/ ParseCmdline \/ ReadFile \/ ApplyEnv \/ ApplyFile
+HistGenNext == \/ ParseCmdline \/ ReadFile \/ ApplyEnv \/ ApplyFile \/ ScanNeighbour("before") \/ ScanNeighbour("after")
                \/ Validate /\ (Len(hist) = MaxLoads - 1 => PrintT(ToJson([hist |-> HistJson \o <<LoadJson(given, val, result')>>])))
                \/ \E g \in HistGivens : Again(g)
 HistGenSpec == HistInit /\ [][HistGenNext]_vars
